@@ -218,9 +218,14 @@ func TestCheck(t *testing.T) {
 	r.Rule(fmt.Sprintf("cases = selector sets (1..2 matchers over names {a,b,c} x {=,!=,=~,!~} x values {\"\",x,y,x|y,.*,.+}; unordered pairs quick, ordered pairs thorough) "+
 		"x %d query ranges (all intervals over {MinInt64,1,2[,3 thorough],MaxInt64} + 2 inverted); each case is evaluated against %d stores = %d label-set configurations "+
 		"(0..%d label sets over {a,b}x{x,y}, incl. the empty set) x %d advertised ranges; non-trivial = distinct case in which at least one store was skipped that store.LabelSetsMatch rejects "+
-		"(pruned on external labels)", len(rgs), len(cfgs)*len(rgs), len(cfgs), vlib.Pick(r, 2, 3), len(rgs)))
+		"(pruned on external labels) || selector part: %d TSDB-selector relabel configurations (keep/drop rules on a, on a and b, two rules, the empty non-nil configuration) x every set of 1..2 stores "+
+		"advertising 1..%d label sets each and at most %d together (same label-set alphabet, plus one value containing the regexp separator: a=\"x|y\") x %d queries (matchers on a,b each with c!=\"\"; thorough adds pairs); "+
+		"stores are real TSDBStores (one label set) or real nested ProxyStores over TSDBStores; non-trivial = distinct case in which the forwarded request carried added external-label matchers and a selector-kept label set was pruned behind the proxy",
+		len(rgs), len(cfgs)*len(rgs), len(cfgs), vlib.Pick(r, 2, 3), len(rgs), len(selectorConfigs()), vlib.Pick(r, 2, 3), vlib.Pick(r, 3, 4), len(selQueries(r))))
 	r.Assume("a store 'holds' at most the maximal dataset consistent with its advertisement: every series carries all labels of one advertised label set (any series if none is advertised) and all samples lie in the advertised [mint,maxt] (both ends inclusive)",
-		"proxy selector labels, TSDBSelector relabelling, the store-debug-matcher context value and Client.Matches filters are configuration-driven exclusions, not pruning by advertisement; they are left at their defaults (empty / no-op / true)",
+		"proxy selector labels, the store-debug-matcher context value and Client.Matches filters are configuration-driven exclusions, not pruning by advertisement; they are left at their defaults (empty / none / true). Main part: TSDBSelector at its no-op default",
+		"selector part: label sets dropped by the TSDB selector are excluded by configuration and not judged; a label set it keeps (reference: keep/drop relabel semantics written out in the check) is selected data. The TSDB below each real TSDBStore is a stub recording that, and with which matchers, it was queried; an explicit error answer is not a skip",
+		"selector part, series level: a store's own series carry no label whose name is an external label of another store (the premise of the selector's added matchers); only such series are required to pass the forwarded matchers",
 		"fake clients model LabelSets()/TimeRange() verbatim; transformations done by pkg/query endpointRef before the proxy sees them are out of scope")
 
 	main := gen(r, rgs)
